@@ -228,6 +228,7 @@ const pv_event* pv_ev_find(int kind, int nth) {
 bool pv_ledger_is_live(const void* p) { for (int i = 0; i < pv_w->nlive; ++i) if (pv_w->live[i].ptr == p) return true; return false; }
 int pv_ledger_live(void) { return pv_w->nlive; }
 void pv_ledger_forget_all(void) { pv_w->nlive = 0; }
+void pv_ledger_reclaim(int keep) { while (pv_w->nlive > keep && pv_w->nlive > 0) { free(pv_w->live[--pv_w->nlive].ptr); } }
 void pv_set_rand_script(const void* bytes, int n) { pv_w->rand_mode = 1; memcpy(pv_w->rand_script, bytes, (size_t)n); pv_w->rand_script_len = n; }
 void pv_set_rand_prng(void) { pv_w->rand_mode = 0; }
 
